@@ -503,14 +503,40 @@ def run_scenario(ctx: Ctx, rng, store, kind: str, sidx: int, sampler_name: str) 
     n_trials = {"gp": 5}.get(sampler_name, rng.randint(6, 11)) + n_enq
     facts = {"sampler": sampler_name, "history": history, "backend_family": backends.family_of(kind)}
     case = {k: _CUR["scenario"][k] for k in ("sampler", "history", "backend", "scenario_index", "dists", "seed")}
+    # a scenario that does not come back (observed in the thorough tier: a sampler retrying for ever on an extreme range) is cut
+    # by SIGALRM after a generous limit and recorded like any other exception out of optimize: C10 speaks about returned values
+    import signal
+
+    class ScenarioTimeout(Exception):
+        pass
+
+    def _on_alarm(signum, frame):
+        raise ScenarioTimeout(f"scenario did not finish within its time limit ({sampler_name})")
+
+    limit = float(__import__("os").environ.get("VERIF_C10_SCENARIO_LIMIT_S", 900 if sampler_name == "gp" else 240))
+    armed = False
+    try:
+        old_handler = signal.signal(signal.SIGALRM, _on_alarm)
+        signal.setitimer(signal.ITIMER_REAL, limit)
+        armed = True
+    except ValueError:       # not in the main thread
+        old_handler = None
     try:
         study.optimize(objective, n_trials=n_trials)
+    except ScenarioTimeout as e:
+        ctx.count("scenarios_cut_by_the_time_limit")
+        ctx.count("scenarios_aborted_by_exception")
+        __import__("sys").stderr.write(f"[C10] scenario {sidx} ({sampler_name}, shard {ctx.shard[0]}) cut after {limit}s\n")
+        ctx.seen("abort_reasons", f"{sampler_name}: ScenarioTimeout after {limit}s; dists {[list(d[:-1]) for d in dists.values()]}"[:300])
     except Exception as e:  # noqa: BLE001
         # An exception out of suggest/optimize is not a statement about the *values* returned, so it is not a
         # C10 violation; it is recorded (the scenario's remaining trials are lost to the monitors).
         ctx.count("scenarios_aborted_by_exception")
         ctx.seen("abort_reasons", f"{sampler_name}: {type(e).__name__}: {str(e)[:80]}")
     finally:
+        if armed:
+            signal.setitimer(signal.ITIMER_REAL, 0)
+            signal.signal(signal.SIGALRM, old_handler)
         _CUR["log"] = None
         if faulty:
             del st_obj.set_trial_param  # back to the class's method
